@@ -9,7 +9,7 @@ UNITS = [
     U("C13.history_lemma", ["C13"], "harness/C13/history.c", "h_history",
       replace=["secp256k1_musig_partial_sign", "secp256k1_musig_nonce_gen", "secp256k1_musig_nonce_gen_counter"],
       functions=[], timeout=300, min_obl=291, replay=False,
-      note="lemma harness over the three DFCC-enforced API contracts only (no library code executed): sign;sign, failed sign;sign, gen;sign;sign, failed gen;sign"),
+      note="lemma harness over the three DFCC-enforced API contracts only (no library code executed): sign;sign, failed sign;sign, gen;sign;sign, failed gen;sign. The partial_sign contract is enforced in the quick tier (C13.psign_contract); the two nonce_gen contracts are enforced by THOROUGH-tier units (C13.nonce_gen_contract / _counter_contract, 190-200 s): the quick tier assumes them, their non-frame clauses are asserted on the real code by the quick units C13.nonce_gen / C13.nonce_gen_counter"),
     U("C13.nonce_gen_contract", ["C13"], "harness/C13/nonce_gen_contract.c", "h_nonce_gen_contract", enforce=["secp256k1_musig_nonce_gen"],
       replace=NG_OR, assumed=NG_ASSUMED, functions=["secp256k1_musig_nonce_gen", "secp256k1_musig_nonce_gen_internal"], timeout=2400, tier="thorough", min_obl=1661, replay=False, unwind=134,
       note="DFCC-enforced contract incl. assigns frame; nonce_function_musig replaced by its summary (stream proved in C12.nonce_function)"),
